@@ -9,7 +9,8 @@ NAMES = ["app", "App", "app2", "app-web", "x" + "обработка" * 5, "ap", 
 
 
 def P(path):
-    return path.split("/")
+    # (a trailing slash does not change which directory a path names)
+    return (path.rstrip("/") or path).split("/")
 
 
 def cfg_abs(targets):
@@ -172,11 +173,25 @@ def run_scenario(bins, sc, keep=False):
             time.sleep(0.02)
         evs = fx.events()
         cmd_index = {c: i + 1 for i, c in enumerate(cmds)}
+        # a command may be listed more than once: the k-th start (end) of one (command, target) belongs to the k-th
+        # position of that command (executions of one pair never overlap unless something is wrong, which the rules see)
+        positions = {}
+        for i, c in enumerate(cmds):
+            positions.setdefault(c, []).append(i + 1)
+        seen = {}
         events = []
         for e in evs:
             ident = e.get("id") or {}
             c = cmd_index.get(ident.get("cmd"), 0)
             t = P(ident.get("target", "?"))
+            pl = positions.get(ident.get("cmd"))
+            if pl and len(pl) > 1 and e["k"] in ("start", "end", "barrier_timeout"):
+                kk = (ident.get("cmd"), ident.get("target"), "start" if e["k"] == "start" else "end" if e["k"] == "end" else "bt")
+                n = seen.get(kk, 0)
+                seen[kk] = n + 1
+                if e["k"] == "barrier_timeout":
+                    n = max(0, seen.get((kk[0], kk[1], "start"), 1) - 1)
+                c = pl[min(n, len(pl) - 1)]
             if e["k"] == "start":
                 events.append({"k": "start", "c": c, "t": t, "code": 0})
             elif e["k"] == "end":
@@ -187,10 +202,13 @@ def run_scenario(bins, sc, keep=False):
         rec = {"ev": "run", "cfg": cfg_abs(sc["targets"]), "mode": mode,
                "named": [P(x) for x in sc.get("named", [])], "pre": {"targets": pre["targets"], "groups": pre["groups"]},
                "ncmd": len(cmds), "fou": bool(sc.get("fou")),
-               "kinds": [[cmd_index[c], P(tp), kinds.get("%s|%s" % (c, tp), "def").replace("noexec_later", "noexec")] for c in cmds for tp in all_paths],
+               "kinds": [[i + 1, P(tp), kinds.get("%s|%s" % (c, tp), "def").replace("noexec_later", "noexec")] for i, c in enumerate(cmds) for tp in all_paths],
                "events": events, "rc": res["rc"] if res["rc"] is not None else -9,
                "doc": doc_abs(res["out"], len(cmds)), "timeout": bool(res.get("timeout")),
                "label": sc.get("label", "")}
+        if rec["doc"]["ok"]:
+            # the document names each command at its position
+            rec["doc"]["names_ok"] = [cr.get("command") for cr in res["out"]["results"]] == list(cmds)
         if sc.get("interrupt"):
             rec["interrupted"] = True
         if sc.get("trust"):
@@ -251,7 +269,8 @@ def targets_from_dag(nt, dep, names=None, rng=None):
                 if (t, nested.get(u)) in depset and (t + u) % 3 == 0:
                     continue        # the entry naming the nested target u brings its enclosing target along
                 # the entry names the dependency's directory, a file in it, or a path in it that does not exist (yet)
-                uses.append([paths[u], paths[u] + "/src.txt", paths[u] + "/dist/out.bin"][(t + 2 * u) % 3])
+                # ... or the directory written with a trailing slash or a trailing dot component
+                uses.append([paths[u], paths[u] + "/src.txt", paths[u] + "/dist/out.bin", paths[u] + "/", paths[u] + "/."][(t + 2 * u) % 5])
         t = {"path": paths[i]}
         if uses:
             t["uses"] = uses
@@ -429,7 +448,7 @@ def random_scenario(seed, nt_range=(5, 12), fail_prob=0.35, slow_deps=True):
     return sc
 
 
-def barrier_scenario(size, position, seed=0, shared=False, chatty=False, linked=False):
+def barrier_scenario(size, position, seed=0, shared=False, chatty=False, linked=False, twice=False, deps_arg=False):
     """C16: a group of `size` members, each waiting until all the others have started.
     shared: every member resolves the command to the same executable file (a common command directory)."""
     rng = random.Random(seed)
@@ -469,6 +488,18 @@ def barrier_scenario(size, position, seed=0, shared=False, chatty=False, linked=
                                      {"op": "exit", "code": 0}]
     sc = {"targets": ts, "commands": cmds, "kinds": {}, "fou": False, "scripts": scripts, "mode": "all",
           "label": "barrier-%d-%s%s%s" % (size, position, "-shared" if shared else "", "-chatty" if chatty else ""), "timeout": 170}
+    if twice:
+        # the command is listed twice: the group is a barrier on each pass (announce / wait per execution count)
+        sc["commands"] = ["build", "build"]
+        for m in members:
+            sc["scripts"]["build|" + m] = [{"op": "arrive", "name": "bar-" + m, "peers": ["bar-" + o for o in members],
+                                            "timeout_ms": 40000, "on_timeout": "barrier_timeout"},
+                                           {"op": "out", "text": "member %s done\n" % m}, {"op": "exit", "code": 0}]
+        sc["label"] += "-twice"
+    if deps_arg:
+        # the group is reached as the dependency closure of one named target, with a run-time argument
+        sc["mode"], sc["named"], sc["extra_args"] = "targets_deps", [chain_a[0]], ["--arg", "release"]
+        sc["label"] += "-deps-arg"
     if linked:
         # every second member's command file is a symbolic link to an executable kept elsewhere in the repository
         sc["symlinks"] = ["build|" + m for m in members[::2]]
@@ -595,6 +626,33 @@ def linked_noexec_scenario(seed=0, cmd_dir=False):
             if t["path"] == bad:
                 t["commands"] = {"path": bad + "/ci"}
         sc["cmd_dirs"] = {bad: bad + "/ci"}
+    return sc
+
+
+def repeated_commands_scenario(seed=0, how="commands", fail_second=False):
+    """C05 / C06 / C04: one command listed more than once -- directly (`-c lint build lint test`), or because two sequences
+    overlap, or a sequence and --commands.  Every occurrence is a position of its own: executed there, reported there,
+    under its own name; a failure of the second occurrence is the second occurrence's."""
+    rng = random.Random(seed)
+    ts = [{"path": "base"}, {"path": "mid", "uses": ["base"]}, {"path": "top", "uses": ["mid/src.txt"]}, {"path": "solo"}]
+    rng.shuffle(ts)
+    cmds = ["lint", "build", "lint", "test"]
+    scripts = {}
+    for t in ts:
+        for c in set(cmds):
+            key = "%s|%s" % (c, t["path"])
+            scripts[key] = [{"op": "out_by_count", "counter": "o", "texts": ["%s first pass\n" % key, "%s second pass\n" % key]},
+                            {"op": "sleep", "ms": rng.randint(0, 40)}, {"op": "exit", "code": 0}]
+    if fail_second:
+        scripts["lint|mid"] = [{"op": "out", "text": "lint mid\n"}, {"op": "exit_by_count", "codes": [0, 3]}]
+    sc = {"targets": ts, "commands": cmds, "kinds": {}, "fou": False, "scripts": scripts, "mode": "all",
+          "label": "repeated-commands-%s-%d%s" % (how, seed, "-failsecond" if fail_second else "")}
+    if how == "sequences":
+        sc["sequences_cfg"] = {"quick": ["lint", "build"], "full": ["lint", "test"]}
+        sc["cli"] = {"sequences": ["quick", "full"], "commands": []}
+    elif how == "sequence_and_commands":
+        sc["sequences_cfg"] = {"ci": ["lint", "build"]}
+        sc["cli"] = {"sequences": ["ci"], "commands": ["lint", "test"]}
     return sc
 
 
